@@ -141,6 +141,11 @@ func (u *Universe) bigSize(r *rand.Rand) uint64 {
 	return v
 }
 
+// NewLog builds a single log over given trees (for harnesses that bring their own tree).
+func NewLog(u *Universe, idx int, origin, id string, key *refnote.SignKey, branches ...*reftree.Tree) *Log {
+	return &Log{Idx: idx, Origin: origin, ID: id, Key: key, Branches: branches, U: u, roots: map[string][]BS{}}
+}
+
 // Root returns the root of (branch,size) and remembers it for Lookup.
 func (l *Log) Root(b int, size uint64) []byte {
 	rt := l.Branches[b].Root(size)
